@@ -141,7 +141,7 @@ theorem adoptHigher_monotone (lock new : Gen.Bft.View)
   omega
 
 theorem adopt_assigns_lock :
-    src_adoptHigher_body = "b.HighQC = vote.HighQc; b.Block, b.Results = vote.Qc.Block, vote.Qc.Results; b.RCBuildHeight = vote.RcBuildHeight" := by
+    src_adoptHigher_body = "b.HighQC = vote.HighQc; b.RCBuildHeight = vote.RcBuildHeight" := by
   decide
 
 /-- what `CheckHighQC` guarantees about an accepted justification: +2/3, same height, phase PROPOSE_VOTE -/
@@ -155,11 +155,12 @@ theorem checkHighQCPost_ok (isPartial : Bool) (x view : Gen.Bft.View) (l : Nat)
 /-- **The lock-view obligation.** A non-partial PRECOMMIT/COMMIT leader message that passes `CheckProposerMessage`
     carries the certificate of the replica's root height, of the message's own height and round, and of the
     vote phase right before the message's phase, for the block and results the replica holds. -/
-theorem leaderMsg_binds_view (qc hdr : Gen.Bft.View) (root height chu : Nat) (saved : Bool) (a b c d : Nat)
+theorem leaderMsg_binds_view (qc hdr : Gen.Bft.View) (root height chu : Nat) (sender proposer : Nat) (saved : Bool)
+    (a b c d : Nat)
     (h1 : leaderMsgHeaderRejected qc hdr root height chu = false)
-    (h2 : leaderMsgChecks qc hdr saved a b c d = none) :
+    (h2 : leaderMsgChecks qc hdr sender proposer saved a b c d = none) :
     qc.RootHeight = root ∧ hdr.Height = height ∧ qc.Height = hdr.Height ∧ qc.Round = hdr.Round ∧
-      qc.Phase + 1 = hdr.Phase ∧ saved = true ∧ a = c ∧ b = d := by
+      qc.Phase + 1 = hdr.Phase ∧ sender = proposer ∧ saved = true ∧ a = c ∧ b = d := by
   unfold leaderMsgHeaderRejected leaderMsgWrongRoot leaderMsgWrongHeight leaderMsgQcTooOld at h1
   unfold leaderMsgChecks at h2
   repeat' split at h2
@@ -167,6 +168,12 @@ theorem leaderMsg_binds_view (qc hdr : Gen.Bft.View) (root height chu : Nat) (sa
 
 /-- the view-binding check comes before the hash comparisons in the PRECOMMIT/COMMIT branch -/
 theorem bind_precedes_hashes : 0 ≤ leaderBranch_bindIndex ∧ leaderBranch_bindIndex < leaderBranch_hashIndex := by decide
+
+/-- a PRECOMMIT/COMMIT message is accepted only from the leader the replica follows in the round (e2ecd83): the check
+    is there, before the hash comparisons, and `validateMessageParams.proposerKey` is the replica's `ProposerKey` -/
+theorem sender_check_present :
+    0 ≤ leaderBranch_senderIndex ∧ leaderBranch_senderIndex < leaderBranch_hashIndex ∧
+      src_validateMessageParams_proposerKey = true := by decide
 
 /-- the certificate of the accepted PRECOMMIT message, fetched by (round, phase), becomes the lock -/
 theorem lock_is_message_certificate :
@@ -217,7 +224,7 @@ theorem genCertBound_binds (q : Bft.View) (qp : Bool) (v : Bft.View) (h : genCer
     q = v ∧ qp = true := by
   unfold genCertBound at h
   simp only [Bool.and_eq_true, Bool.not_eq_true', Option.isNone_iff_eq_none] at h
-  obtain ⟨hr, _, _, hround, hphase, _⟩ := leaderMsg_binds_view _ _ _ _ _ _ _ _ _ _ h.1 h.2
+  obtain ⟨hr, _, _, hround, hphase, _⟩ := leaderMsg_binds_view _ _ _ _ _ _ _ _ _ _ _ _ h.1 h.2
   cases q; cases v
   simp only [hdrOf] at hr hround hphase
   refine ⟨by simp_all, ?_⟩
@@ -273,7 +280,7 @@ theorem exec_propose_refines (c : Cfg) (hc : c.unlock = genUnlock) (tr : List Ev
 theorem exec_precommit_msg_binds (w : World) (s : Rep) (m : MsgD) (hph : m.hdrPhase = phase_PRECOMMIT)
     (h : w.leaderVerdict s m = .ok) :
     m.qc.view = ⟨s.root, m.hdr.round⟩ ∧ m.qc.phase = phase_PROPOSE_VOTE ∧ s.blk = some m.qc.blk ∧
-      w.isPartial m.qc.signers = false := by
+      w.isPartial m.qc.signers = false ∧ s.proposer = some m.sender := by
   unfold World.leaderVerdict at h
   simp only at h
   split at h
@@ -294,9 +301,13 @@ theorem exec_precommit_msg_binds (w : World) (s : Rep) (m : MsgD) (hph : m.hdrPh
               · rename_i hroot hpart hheight hold _ _ hchk
                 have hrej : leaderMsgHeaderRejected (certHdr m.qc) (hdrOf m.hdr m.hdrPhase) s.root modelHeight 0 = false := by
                   unfold leaderMsgHeaderRejected; simp_all
-                obtain ⟨hr, _, _, hround, hphase, hsaved, hb1, hb2⟩ := leaderMsg_binds_view _ _ _ _ _ _ _ _ _ _ hrej hchk
+                obtain ⟨hr, _, _, hround, hphase, hsnd, hsaved, hb1, hb2⟩ := leaderMsg_binds_view _ _ _ _ _ _ _ _ _ _ _ _ hrej hchk
                 simp only [certHdr, hdrOf] at hr hround hphase
-                refine ⟨?_, ?_, ?_, by simpa using hpart⟩
+                refine ⟨?_, ?_, ?_, by simpa using hpart, ?_⟩
+                rotate_left 3
+                · cases hp : s.proposer with
+                  | none => simp [keyId, hp] at hsnd
+                  | some x => simp [keyId, hp] at hsnd; rw [hsnd]
                 · cases hv : m.qc.view; simp_all
                 · rw [hph] at hphase; simp [phase_PRECOMMIT] at hphase; simp [phase_PROPOSE_VOTE]; omega
                 · cases hblk : s.blk with
